@@ -39,6 +39,7 @@ class Scheduler:
         self.max_points = max_points
         self.switches = 0
         self.runaway = False
+        self.wall_limit = 120
         self._tls = threading.local()
 
     # -- public -------------------------------------------------------------
@@ -50,7 +51,15 @@ class Scheduler:
         first = self._pick(None, preemptible=False)
         self.current = first
         first.sem.release()
-        self.done.acquire()
+        if not self.done.acquire(timeout=float(self.wall_limit)):
+            # a controlled thread is blocked on something the scheduler does not own (a real lock,
+            # real I/O): this is a harness limitation, never a verdict about the code under test
+            import os
+            import sys
+            sys.stderr.write('HARNESS-ERROR: controlled threads did not finish within %ss: a thread blocks on a primitive '
+                             'outside the cooperative scheduler (rebind it to thr.CoopLock)\n' % self.wall_limit)
+            sys.stderr.flush()
+            os._exit(2)
         for t in self.threads:
             t.thread.join(10)
         return [(t.result, t.exc) for t in self.threads]
